@@ -167,7 +167,7 @@ fn rule_for(prop: &str) -> &'static str {
         "C07" => "class-S cases biased to coinciding deadlines; non-trivial = a (time, origin, target) group of >=3 events containing a periodic occurrence while another origin is active for the same model and time (or group>=3 with two origins); distinct = hash of the JSON case",
         "C08" => "validation: class-S cases biased to past/present deadlines and zero periods through all request kinds (5 Scheduler methods, 4 EventSource action kinds, 4 Context methods); non-trivial = at least one request kind with both a rejected and an accepted request in the case. c08-race: 1-3 real threads issuing schedule_event requests (absolute = time()+d, relative d; 20-2000 per thread) while the driver executes 10-120 step / step_until calls with or without a periodic background; accepted requests fire exactly once at their deadline (relative: within [t_before+d, t_after+d]), rejected ones never, handlers never run at or before the time a call started at, time never decreases, step_until(d) ends exactly d later; non-trivial = >=50 requests, >=1 accepted and >=1 rejected absolute request, and the time advanced during at least one request; distinct = hash of the JSON case",
         "C09" => "class-S cases biased to keyed events and cancellations; non-trivial = a cancellation that took effect in the same time slice as the target's deadline, or a periodic series cancelled after >=1 occurrence; distinct = hash of the JSON case",
-        "C10" => "periodic series (t0,p) with commensurable periods, two generated partitions of the horizon, closed-form t0+k*p oracle + partition independence + RefSim; non-trivial = >=3 instants where >=2 series coincide, or >=50 occurrences, or a step_until boundary exactly on an occurrence; distinct = hash of the JSON case",
+        "C10" => "periodic series (t0,p) with commensurable periods, two generated partitions of the horizon, closed-form t0+k*p oracle + partition independence + RefSim; non-trivial = >=3 instants where >=2 series coincide, or >=50 occurrences, or a step_until boundary exactly on an occurrence. c10-time-range: simulations starting 5-80 ns before MonotonicTime::MAX with 1-3 periodic series: every representable t0+k*p fires exactly once, nothing panics, a series ends when its next occurrence is not representable; non-trivial = an occurrence falls exactly on MAX; distinct = hash of the JSON case",
         "C18" => "class-S cases with a recording scripted clock (Synchronized / OutOfSync(lag) answers, tolerance none/0/tau); non-trivial = >=3 time-advancing steps AND a step_until final jump AND a lag answer on a step that has model work. c08-race (run for C18 with a recording clock): while 1-3 threads schedule through Scheduler handles, the arguments of synchronize() never decrease and every handler of a time t runs after a synchronize(t) of the same stepping call; distinct = hash of the JSON case",
         "C02" => "class-M cases: proptest-generated acyclic model graphs (2-6 scripted models, mailbox capacities 1-16, plain/map/filter_map connections, sub-models, init traffic) driven by process_event/process_query/process(action)/schedule+step; oracle = completed-knowledge vector clocks carried by every message (DESIGN Appendix B); non-trivial = a recipient processed two messages of different senders ordered through a chain AND a port operation was observed suspended (records of other models between its start and its end); distinct = hash of the JSON case",
         "C03" => "class-M cases; oracle = per-command multiset of handler invocations (model, kind, id, via, script, ttl) and sink contents == sequential expansion of the injected messages, both directions; non-trivial = a broadcast with >=2 accepting and >=1 filtering connections AND a suspended port operation; distinct = hash of the JSON case",
@@ -175,7 +175,7 @@ fn rule_for(prop: &str) -> &'static str {
         "C05" => "class-M cases; oracle = per-model busy flag (swap at handler entry) and strict Begin/Op/End nesting of every model's records in the global stamp order, init included; non-trivial = a model ran >=2 handlers in one command AND (a suspended operation OR handlers of that model on >=2 threads); distinct = hash of the JSON case",
         "C06" => "class-M cyclic cases (loops, self queries, orphan mailboxes, sub-models) kicked off by process_* and by init, plus acyclic cases that must never report a stall; oracle = mailbox accounting at quiescence: queued(X) = min(capacity(X), started sends to X - handlers begun by X), Deadlock must list exactly the simulation's models with queued>0 by qualified name and size, MessageLoss(n) only when all n sit in orphan mailboxes, Ok iff nothing is queued; non-trivial = the run ended in Deadlock/MessageLoss, or completed with >=3 active models and a suspended operation; distinct = hash of the JSON case",
         "C12" => "c12-queue-seq: generated push/pop/len sequences (1-600 ops, capacities 1-69, one close at a generated position) on the real channel/queue.rs against a VecDeque model (Full gives the message back, Closed after close, accepted messages stay receivable, len() == held, never above capacity); non-trivial = a push met a full queue AND the ring buffer wrapped around. c12-queue-mpsc: 1-3 producer threads pushing 1-3000 numbered messages each with retry on Full, one consumer; per-producer FIFO, exactly once, nothing accepted is lost (also when the consumer closes the queue while producers are pushing), len() == 0 once drained, Closed after close; non-trivial = >=2 producers AND a producer met a full queue; distinct = hash of the JSON case",
-        "C15" => "one model, 20-400 events at generated increments (1 ns .. 4.3 s, many carrying into the seconds; start 999_999_000 ns before a second boundary), 1-3 reader threads spinning on Scheduler::time() while the driver steps; oracle = every value read is a time the simulation had, a reader's values never decrease, the read made after the last step returns the final time, handlers read a valid time; non-trivial = a reader saw >=3 distinct times AND two consecutive observations differing in the seconds; distinct = hash of the JSON case",
+        "C15" => "one model, 20-400 events at generated increments (1 ns .. 4.3 s, many carrying into the seconds; start 999_999_000 ns before a second boundary), 1-3 reader threads spinning on Scheduler::time() while the driver steps; oracle = every value read is a time the simulation had, a reader's values never decrease, the read made after the last step returns the final time, handlers read a valid time; non-trivial = a reader saw >=3 distinct times AND two consecutive observations differing in the seconds. c08-race (run for C15): threads that schedule through Scheduler handles while step/step_until run never read an older time than they have already read; distinct = hash of the JSON case",
         "C14" => "class-M cases with 0-6 repliers per requestor (plain/map/filter_map) and with connections added between commands through detached clones of the models' output ports; oracle = reply list of every query == (replier, reply id computed from the mapped request, via) in connection order, process_query reply, and handler multisets that include deliveries through clone-added connections; non-trivial = a query with >=2 repliers and >=1 filtered out, or a clone-added connection in a case with >2 handlers; distinct = hash of the JSON case",
         "C16" => "class-M hierarchical cases (sub-models to depth 3+, empty names, init scripts that send events and queries); oracle = exactly one init per model during SimInit::init, before any message of that model, never later; messages sent before the recipient's init are in the expansion multiset; Context::name() uses parent.child; non-trivial = sub-models present AND an init that sends to another model. c16-cyclic: Deadlock reports list stalled sub-models under their qualified names. c16-fault-names: class-F cases (panic / send to a dropped mailbox injected in hierarchies): the failure report names the failing model by its qualified name; non-trivial = the fault was attributed to a sub-model; distinct = hash of the JSON case",
         "C17" => "c17-sink-api: generated write/read/drain/open/close sequences (1-80 ops, 3 writer clones, capacities 1-39) on EventBuffer and EventSlot against a VecDeque/Option model; non-trivial = buffer overflowed (and capacity>1 or a write while closed) / slot overwritten then read then empty. c17-sink-threads: 2-3 threads writing 1-1500 numbered events each through writer clones of one EventBuffer (capacity 1-39), optionally with a concurrent reader; the buffer never holds more than its capacity once no write is in flight, holds exactly min(capacity, writes) without reads, per-writer order, nothing invented; non-trivial = >=2 writers and an overflow. c17-sim: class-M cases, sink content per (model, output) must be in sending order; non-trivial = a sink holds >=2 sends of one output; distinct = hash of the JSON case",
@@ -258,6 +258,10 @@ fn run_property(prop: &'static str, tier: &str, seed: u64) -> i32 {
                 ctx.run(&C10Sub { mt: None }, n, 16);
                 let n = ctx.n(500, 10_000);
                 ctx.run(&C10Sub { mt: Some(4) }, n, 4);
+                let n = ctx.n(20_000, 400_000);
+                ctx.run(&C10EdgeSub { mt: None }, n, 16);
+                let n = ctx.n(400, 8_000);
+                ctx.run(&C10EdgeSub { mt: Some(4) }, n, 4);
             }
             core::set_delay_mode(0, seed);
         }
@@ -297,6 +301,10 @@ fn run_property(prop: &'static str, tier: &str, seed: u64) -> i32 {
             ctx.run(&TSub { mt: None }, n, 5);
             let n = ctx.n(1500, 30_000);
             ctx.run(&TSub { mt: Some(4) }, n, 3);
+            // readers that also schedule while step / step_until run (the race sub-check of C08):
+            // a thread never reads an older time than it has already read
+            let n = ctx.n(1500, 30_000);
+            ctx.run(&RSub { mt: None }, n, 4);
         }
         "C12" => {
             let n = ctx.n(150_000, 4_000_000);
@@ -391,6 +399,12 @@ fn replay(path: &str) -> i32 {
         }
         if sub == "c10-partitions-st" {
             return replay_one(&C10Sub { mt: None }, p, case, path);
+        }
+        if sub == "c10-time-range-st" {
+            return replay_one(&C10EdgeSub { mt: None }, p, case, path);
+        }
+        if sub == "c10-time-range-mt" {
+            return replay_one(&C10EdgeSub { mt: Some(4) }, p, case, path);
         }
         if sub == "c10-partitions-mt" {
             return replay_one(&C10Sub { mt: Some(4) }, p, case, path);
